@@ -216,7 +216,28 @@ def c14(res):
                       "a case = one shape evaluation")
 
 
-CHECKS = {"C01": c01, "C02": c02, "C04": c04, "C10": c10, "C14": c14, "C15": c15, "C20": c20}
+def c03(res):
+    wd = workdir("C03")
+    q = res.tier == "quick"
+    res.models.append(model_check("Interval", "Interval_quick.cfg" if q else "Interval_thorough.cfg", wd, workers=8, timeout=3000))
+    progs = gen_programs(res, wd)
+    trace = os.path.join(wd, "trace.ndjson")
+    if not run_recorder(res, "c03", [progs, res.tier, trace], wd):
+        return res.finish("recorder crashed")
+    n, rej = validate("Trace_C03", trace, wd, timeout=3000)
+    res.validated = n - len(rej)
+    res.evaluations = n
+    res.samples = sample_lines(trace, maxlen=3000)
+    res.add_rejects(trace, rej, lambda r, f: "ev=%s backend=%s fails=%s" % (r.get("ev"), r.get("backend"), "+".join(sorted(f))))
+    res.assumptions = ["the point evaluator is the oracle, as the property states; slack = 4 ulps",
+                       "WGSL shader and aarch64 back end not reachable on this host"]
+    return res.finish("generator programs and seeded long programs on boxes of six classes (degenerate, tiny, unit, wide, huge, touching "
+                      "zero; centres at quadrant boundaries and poles) sampled at corners, edge midpoints, centre and interior points; "
+                      "VM and JIT; plain tapes, shapes with affine / projective transform matrices; local obligations for every op; "
+                      "a case = one interval evaluation with its samples")
+
+
+CHECKS = {"C01": c01, "C03": c03, "C02": c02, "C04": c04, "C10": c10, "C14": c14, "C15": c15, "C20": c20}
 
 
 def replay(prop, path):
